@@ -2,6 +2,7 @@ package formula
 
 func init() {
 	vpHarnesses["VP_C02_bytes"] = VP_C02_bytes
+	vpHarnesses["VP_C02_pool"] = VP_C02_pool
 }
 
 // C02/bytes: integration of the real scanner and parser on every text of L
@@ -15,6 +16,29 @@ func VP_C02_bytes() {
 			vpAssume(c == '-' || c == '0' || c == 'x' || c == '1' || c == ' ' || c == '.')
 		}
 	}
+	vpC02CheckText(text)
+}
+
+// vpC02Texts: a CONCRETE POOL of formulas longer than the symbolic byte bound:
+// prefix / typeof operands that start with a parenthesised expression followed
+// by member access or a call, commas inside the arms of a conditional and
+// inside lists, keywords in operand and member-name position, nested
+// conditionals and assignments.
+var vpC02Texts = []string{
+	"typeof (a).b", "typeof (a)!.b", "typeof (f)(x)", "typeof (a + b).c == 'x'", "-(a).b", "!(f)(x).y", "~(a)!.b(c)", "typeof typeof (a).b",
+	"a ? b, c : d", "f(a ? b, c : d)", "[a ? b, c : d]", "x ? y ? 1, 2 : 3 : 4", "a ? b : c, d", "a ? (b, c) : d", "f(a ? b : c, d)", "a ? b = c : d = e", "a ? b : c ? d : e, f",
+	"f(ctx)", "f(a, ctx.user)", "[ctx]", "[1, ctx.user, 2]", "[this, null, true, false]", "f(typeof a, !b, -c, +d, ~e, !!g)", "this.null", "ctx.this", "(this).false", "[this.typeof]", "a.true.false",
+	"a = b = c", "$a = $b = 1, $a", "a, b = c, d", "(a, b) = c", "a = b ? c : d", "a ? b : c = d", "a ?? b || c && d | e ^ f & g == h < i + j * k", "a * b + c < d == e & f ^ g | h && i || j ?? k",
+	"-!a", "!-a", "~-a.b", "!!-~a", "x * -!y", "f(+~a)", "- - a", "-typeof !~a", "a.b(c).d(e)(f)", "a(b)(c).d!.e", "[[a], [b, [c]]]", "((a))", "(a)(b)", "a.b.c!.d.e",
+	"f(a, b...)", "f(...a)", "f(a..., b)", "a ? : b", "a ? b :", "? a : b", "a b", "a +", "+ ", "(", ")", "[", "]", "f(", "f(a,", "a..b", "a.", ".a", "a!.", "1 2", "a ? b ? c : d", "a : b",
+}
+
+// C02/pool: the real scanner + parser against the reference tokenizer + parser on the concrete pool.
+func VP_C02_pool() {
+	vpC02CheckText([]byte(vpC02Texts[vpChoice("text", len(vpC02Texts))]))
+}
+
+func vpC02CheckText(text []byte) {
 	toks, cut, invalid := vpRefTokenize2(text)
 	if invalid {
 		// a numeric literal immediately followed by an identifier character is a syntax error
